@@ -128,6 +128,36 @@ class NumpyProxy(types.ModuleType):
         out.fill(Sym.of(fill_value))
         return out
 
+    def full_like(self, a, fill_value, dtype=None, **kw):
+        return self.full(_np.shape(a), fill_value)
+
+    # -- NaN / inf tests on symbolic arrays: a poisoned value (x/0, inf fill, ...) is the only non-finite symbolic value ------------
+    def _elementwise_flag(self, a, flag):
+        arr = _np.asarray(a, dtype=object)
+        out = _np.empty(arr.shape, dtype=bool)
+        for idx in _np.ndindex(*arr.shape):
+            out[idx] = flag(arr[idx])
+        return out if out.shape else bool(out)
+
+    def isnan(self, a, *args, **kw):
+        if not has_sym(a):
+            return _np.isnan(a, *args, **kw)
+        return self._elementwise_flag(a, lambda x: bool(isinstance(x, Sym) and x.poison) or (not isinstance(x, Sym) and x != x))
+
+    def isfinite(self, a, *args, **kw):
+        if not has_sym(a):
+            return _np.isfinite(a, *args, **kw)
+        return self._elementwise_flag(a, lambda x: not (isinstance(x, Sym) and x.poison) and (isinstance(x, Sym) or bool(_np.isfinite(x))))
+
+    def nan_to_num(self, a, copy=True, nan=0.0, posinf=None, neginf=None):
+        if not has_sym(a):
+            return _np.nan_to_num(a, copy=copy, nan=nan, posinf=posinf, neginf=neginf)
+        arr = _np.array(a, dtype=object)
+        for idx in _np.ndindex(*arr.shape):
+            if isinstance(arr[idx], Sym) and arr[idx].poison:
+                arr[idx] = Sym.of(nan)
+        return arr
+
     def zeros_like(self, a, dtype=None, **kw):
         return self.zeros(_np.shape(a))
 
